@@ -85,6 +85,7 @@ def units(tier, seed):
   for k in range(NCHUNK):
     out.append(('alias', k))
   out.append(('registry',))
+  out.append(('ntsharing',))
   return out
 
 
@@ -187,8 +188,57 @@ def run_registry_history(res):
             case)
 
 
+def run_namedtuple_sharing(res):
+  """Sharing that passes through a named tuple / an instance of a class
+  derived from a named tuple: all pairs of a hand-listed family."""
+  for nt in (N.Pair, N.PairSub):
+    _namedtuple_sharing(res, nt)
+  res.outcomes['namedtuple-sharing'] += 1
+
+
+def _namedtuple_sharing(res, nt):
+  # (pairs are formed within one named-tuple class: Python's own == calls a
+  # Pair and a PairSub with equal fields equal, which is leaf-value equality)
+  def family_():
+    out = []
+    for _ in (0,):
+      l = ['m']
+      out.append(fdl.Config(N.eqnode, x=nt(l, l)))
+      out.append(fdl.Config(N.eqnode, x=nt(['m'], ['m'])))
+      l = ['m']
+      out.append(fdl.Config(N.eqnode, x=nt(l, 'v'), y=l))
+      out.append(fdl.Config(N.eqnode, x=nt(['m'], 'v'), y=['m']))
+      l = ['m']
+      out.append(fdl.Config(N.eqnode, x=[nt(l, 'v')], y=[l]))
+      out.append(fdl.Config(N.eqnode, x=[nt(['m'], 'v')], y=[['m']]))
+    return out
+  cfgs = family_()
+  keys = [expected_key(c, True) for c in cfgs]
+  for i, a in enumerate(cfgs):
+    res.states += 1
+    for j, b in enumerate(cfgs):
+      res.transitions += 1
+      res.nontrivial += 1
+      st, r = safe_eq(a, b)
+      case = {'namedtuple_sharing': [nt.__name__, i, j]}
+      exp = keys[i] == keys[j]
+      if st == 'raise':
+        res.violation('C06/eq-raises/namedtuple', f'{case}: {r}', case)
+      elif r != exp:
+        kind = ('equal-configs-compare-unequal' if exp else
+                'different-configs-compare-equal')
+        res.violation(f'C06/{kind}/sharing-through-namedtuple',
+                      f'{case}: {a!r} == {b!r} gave {r}', case)
+      elif r and build_canon(a) != build_canon(b):
+        res.violation('C06/equal-but-builds-differ/namedtuple', f'{case}',
+                      case)
+
+
 def run_unit(unit, tier, seed):
   res = core.Result()
+  if unit[0] == 'ntsharing':
+    run_namedtuple_sharing(res)
+    return res
   if unit[0] == 'registry':
     run_registry_history(res)
     return res
@@ -393,6 +443,11 @@ def _shape(x):
 
 def replay(case):
   res = core.Result()
+  if 'namedtuple_sharing' in case:
+    run_namedtuple_sharing(res)
+    for v in res.violations:
+      print(v['what'])
+    return res
   if 'registry_history' in case:
     run_registry_history(res)
     for v in res.violations:
